@@ -6,6 +6,7 @@ import ast
 from ..lin import Lin, Infeasible
 from ..avals import *   # noqa
 from ..decide import Runs, need_ge0, need_eq0, definite, soft, iterations
+from . import common
 from ..report import Ob, PROVED, REFUTED, UNDECIDED, func_where, ASSUMPTIONS, Failure
 from ..model import norm_text, AnalysisError
 from .. import seqops
@@ -356,6 +357,10 @@ def check(prog, res, tier):
         return fails
     res.add(runs_i.judge('C17.b', f'ipm_info: < 24 bytes, first length > {MAX}, unconfigured bitmap bit -> invalid with a reason; otherwise '
                                   f'valid with isBlocked/encoding from the sample', func_where(ifi), 'ipm_info validity ladder', chk_i))
+
+    # ---- C17.b the inspection functions keep no state between files
+    for ob in common.state_obs(res, 'C17.b', func_where(ifi), [('ipm_info', runs_i)], 'file inspection'):
+        res.add(ob)
 
     # ---- C17.b where the maximum comes from: the configuration as it is when the file is inspected
     obm = Ob('C17.b', 'the maximum first-record length is read from the configuration when ipm_info runs (not frozen at import)',
